@@ -81,6 +81,8 @@ def equal(a, b, ordered=False, check_index=True, check_names=True):
         return cell_eq(lit_cell(a), lit_cell(b))
     if isinstance(a, SymLabelSeries):
         return And(*[cell_eq(x, y) for x, y in zip(a.cells_, b.cells_)])
+    if ordered and (isinstance(a.order, str) or isinstance(b.order, str)):
+        ordered = False  # row order is implementation-defined here (after a shuffle / join): compare as multisets
     use_index = check_index and _use_index(a, b)
     pa = [_payload(a, i, use_index) for i in range(a.nslots)]
     pb = [_payload(b, i, use_index) for i in range(b.nslots)]
